@@ -32,7 +32,9 @@ class C12(Plugin):
 
     SCHEMES = ["https", "wss", "http", "ws", "HTTPS", "WSS", "Wss", "ftp", "httpss"]
     HOSTS = ["example.test", "EXAMPLE.test", "other.test", "localhost", "127.0.0.1", "[::1]", "a.wild.test", "a..b",
-             "-a.test", "10.0.0.1", "[2001:db8::1]", "x_y.test"]
+             "-a.test", "10.0.0.1", "[2001:db8::1]", "x_y.test",
+             # userinfo in the authority: the server name is the host after the '@'
+             "other.test:pw@example.test", "alice@example.test", "u:p@127.0.0.1", "other.test@[::1]"]
     PORTS = ["", ":443", ":8443"]
 
     def generate(self, tier, rng):
